@@ -357,8 +357,8 @@ pub fn check(ctx: &mut Ctx) {
         }
         None
     });
-    ctx.random("random-tags", 40, 600_000, 6_000_000, gen, |c, obs| oracle(c, obs, false));
-    ctx.random("opaque-attribute", 30, 300_000, 3_000_000, gen_opaque, opaque_oracle);
+    ctx.random("random-tags", 40, 600_000, 40_000_000, gen, |c, obs| oracle(c, obs, false));
+    ctx.random("opaque-attribute", 30, 300_000, 15_000_000, gen_opaque, opaque_oracle);
 }
 
 pub fn replay(sub: &str, case: &Value, obs: &mut Obs) -> Result<Verdict, String> {
